@@ -16,13 +16,21 @@
 (*            collide with the length byte of an 8-byte project code)      *)
 (*   NoStamp  identity fields the unpacking forgets to stamp (design: {})  *)
 (*   Reverse  unpacking returns the inner packs in reverse (design: FALSE) *)
+(*   CellRead how the reader extends a cell that is narrower on the wire    *)
+(*            than the field holding it (the hit-map pack of the small      *)
+(*            world: one unsigned 16-bit hit cell, one error cell; design:  *)
+(*            "unsigned"; "signed" gives 32768 back as -32768)              *)
+(*   CellNs   values written into such a cell: the boundaries of the WIRE   *)
+(*            cell (0, 32767, 32768, 65535) and values the cell cannot hold *)
+(*            (65541, and 1000001 standing for -1), of which the wire carries the low 16 bits        *)
 (***************************************************************************)
 EXTENDS PackCodec, TLC
 
 CONSTANTS PcodeNs,   \* project codes (small naturals; 99 stands for a wide one, see PcodeOf)
           Okinds, Onodes,   \* naturals
           BlobIds,   \* subset of {"nil", "empty", "one"}
-          MaxItems, Marker, NoStamp, Reverse
+          MaxItems, Marker, NoStamp, Reverse,
+          CellNs, CellRead
 
 \* a project code that needs the 8-byte decimal class
 Wide == <<0, 0, 1, 0, 0, 0, 0, 0>>
@@ -38,6 +46,10 @@ Headers == {[Pcode |-> PcodeOf(p), Oid |-> W8(1), Okind |-> W8(k), Onode |-> W8(
 \* (composite), [status, count, records] (zip packs)
 LeafPacks == {[type |-> "RealtimeUserPack", h |-> h, f |-> BlobOf(b)] : h \in Headers, b \in BlobIds}
 
+\* the hit-map pack of the small world: f = <<hit cell, error cell>> (W8 values as the pack holds them)
+CellOf(n) == IF n = 1000001 THEN Fill(8, 255) ELSE NatToBytes(n, 8)    \* 1000001 stands for -1 (cfg files have no negative numbers)
+CellPacks == {[type |-> "HitMapPack1", h |-> h, f |-> <<CellOf(a), CellOf(b)>>] : h \in Headers, a \in CellNs, b \in CellNs}
+
 CodeOf(type) == RegTable[CHOOSE i \in DOMAIN RegTable : RegTable[i][2] = type][1]
 Tag(type) == NatToBytes(CodeOf(type), 2)
 
@@ -52,6 +64,7 @@ RefEnc(p) ==
   Tag(p.type) \o RefHeader(p.h) \o
   (CASE p.type = "RealtimeUserPack" -> DX!Enc("Blob", p.f.v)
      [] p.type = "CompositePack"    -> NatToBytes(Len(p.f), 2) \o Concat([i \in 1..Len(p.f) |-> RefEnc(p.f[i])])
+     [] p.type = "HitMapPack1"      -> <<1>> \o Low(p.f[1], 2) \o Low(p.f[2], 2)     \* a cell carries the low 16 bits
      [] OTHER                       -> <<p.f.status>> \o DX!Enc("Decimal", W8(p.f.count)) \o DX!Enc("Blob", p.f.records))
 
 \* ---- reference reader ----
@@ -79,6 +92,9 @@ DecHeader(b, p) ==
        IF ~t.ok THEN Fail ELSE
        [ok |-> TRUE, h |-> [Pcode |-> c.v, Oid |-> o.v, Okind |-> k.v, Onode |-> n.v, Time |-> t.v], next |-> t.next]
 
+\* the reader's rule for a narrow cell
+CellExt(c) == IF CellRead = "signed" THEN SignExt(c, 8) ELSE ZeroExt(c, 8)
+
 RECURSIVE RefDec(_, _), DecMany(_, _, _, _)
 \* n packs one after the other starting at p
 DecMany(b, p, n, acc) ==
@@ -87,7 +103,7 @@ DecMany(b, p, n, acc) ==
 RefDec(b, p) ==
   IF ~DX!Have(b, p, 2) THEN Fail ELSE
   LET type == CreateOf(BytesToNat(Slice(b, p, 2))) IN
-  IF type \notin {"RealtimeUserPack", "CompositePack", "ZipPack", "LogSinkZipPack"} THEN Fail ELSE
+  IF type \notin {"RealtimeUserPack", "CompositePack", "ZipPack", "LogSinkZipPack", "HitMapPack1"} THEN Fail ELSE
   Bind(DecHeader(b, p + 2), LAMBDA hd :
     IF ~hd.ok THEN Fail ELSE
     CASE type = "RealtimeUserPack" ->
@@ -98,6 +114,11 @@ RefDec(b, p) ==
            IF ~DX!Have(b, hd.next, 2) THEN Fail ELSE
            Bind(DecMany(b, hd.next + 2, BytesToNat(Slice(b, hd.next, 2)), <<>>), LAMBDA m :
              IF ~m.ok THEN Fail ELSE [ok |-> TRUE, p |-> [type |-> type, h |-> hd.h, f |-> m.ps], next |-> m.next])
+      [] type = "HitMapPack1" ->
+           IF ~DX!Have(b, hd.next, 5) \/ b[hd.next] # 1 THEN Fail ELSE
+           [ok |-> TRUE, p |-> [type |-> type, h |-> hd.h,
+                                f |-> <<CellExt(Slice(b, hd.next + 1, 2)), CellExt(Slice(b, hd.next + 3, 2))>>],
+            next |-> hd.next + 5]
       [] OTHER ->
            IF ~DX!Have(b, hd.next, 1) THEN Fail ELSE
            LET c == DX!Dec("Decimal", b, hd.next + 1) IN
@@ -125,6 +146,9 @@ Leaves(p) ==
   Merge(HeaderLeaves(p.h),
     CASE p.type = "RealtimeUserPack" ->
            [x \in {"Logbits"} |-> [k |-> "y", v |-> p.f.v, z |-> p.f.z, o |-> "RealtimeUserPack.Logbits"]]
+      [] p.type = "HitMapPack1" ->
+           [x \in {"Hit", "Error"} |->
+              [k |-> "l", v |-> <<IF x = "Hit" THEN p.f[1] ELSE p.f[2]>>, z |-> FALSE, o |-> "HitMapPack1." \o x]]
       [] p.type = "CompositePack" ->
            Merge([x \in {"pack.#"} |-> [k |-> "n", v |-> Len(p.f), z |-> FALSE, o |-> "CompositePack.pack"]],
                  InnerLeaves(p.f, 1))
@@ -149,7 +173,7 @@ HeadersC == {h \in Headers : h.Pcode = H0.Pcode}
 Composites(inner) == {[type |-> "CompositePack", h |-> h, f |-> s] : h \in HeadersC, s \in SeqsUpTo(inner, MaxItems)}
 \* one fixed header for the nested level keeps the world small
 Nested == {[type |-> "CompositePack", h |-> H0, f |-> <<c>>] : c \in Composites(LeafPacks)}
-Universe == LeafPacks \cup Composites(LeafPacks) \cup Nested
+Universe == LeafPacks \cup Composites(LeafPacks) \cup Nested \cup CellPacks
 
 \* abstract gzip: an invertible framing with the gzip magic
 Gz(x) == <<31, 139>> \o x
